@@ -265,6 +265,46 @@ def run_batch(mod, params, tier, root):
     return stats, viols, errors
 
 
+def isolated_exec(mod, case, timeout=180):
+    """exec_case in a forked child, so that state a case leaves behind in
+    the process (caches, poisoned pools) never leaks into the next candidate
+    and the parent stays pristine.  Returns the list of violations, or None
+    if the child failed."""
+    import multiprocessing
+    ctx = multiprocessing.get_context('fork')
+    rd, wr = ctx.Pipe(duplex=False)
+
+    def child():
+        try:
+            try:
+                vs = exec_case(mod, case, Stats())
+                wr.send(('ok', vs, case.get('schedule')))
+            except BaseException:
+                wr.send(('error', traceback.format_exc(), None))
+            wr.close()
+        finally:
+            os._exit(0)
+    p = ctx.Process(target=child)
+    p.daemon = True
+    p.start()
+    wr.close()
+    res = None
+    if rd.poll(timeout):
+        try:
+            res = rd.recv()
+        except (EOFError, OSError):
+            res = None
+    else:
+        p.kill()
+    rd.close()
+    p.join(5)
+    if not res or res[0] != 'ok':
+        return None
+    if res[2] is not None and 'schedule' not in case:
+        case['schedule'] = res[2]
+    return res[1]
+
+
 def exec_case(mod, case, stats):
     """Execute a case; a `prelude` (earlier cases of the same process) is
     executed first so that state left behind by them is in place."""
@@ -312,9 +352,8 @@ def shrink(mod, case, viol, budget_s=90):
             if _core_of(cand) == _core_of(cur):
                 continue
             tried += 1
-            try:
-                vs = exec_case(mod, cand, Stats())
-            except (Exception, SimAbort):
+            vs = isolated_exec(mod, cand)
+            if vs is None:
                 continue
             hit = [v for v in vs if v['key'] == key]
             if hit:
@@ -550,10 +589,7 @@ def _main_batch(mod, a, root):
                 pre.append(pc)
             case2 = dict(orig_cases[key])
             case2['prelude'] = pre
-            try:
-                vs2 = exec_case(mod, dict(case2), Stats())
-            except (Exception, SimAbort):
-                vs2 = []
+            vs2 = isolated_exec(mod, case2) or []
             hit = [x for x in vs2 if x['key'] == v['key']]
             if hit:
                 case, v = case2, hit[0]
